@@ -35,6 +35,9 @@ func framesRandom(run *Run, ss *shardSet, n int) {
 	r := run.R
 	sw := srcSwitches()
 	for i := 0; i < n; i++ {
+		if abortRun {
+			return
+		}
 		data := r.Bytes(1 + r.Intn(60))
 		if r.Bool() { // plausible header, random payload
 			l := r.Intn(30)
@@ -56,6 +59,9 @@ func framesRandom(run *Run, ss *shardSet, n int) {
 func hpackIntsMalformed(run *Run, ss *shardSet) {
 	r := run.R
 	for i := 0; i < run.N(300, 3000); i++ {
+		if abortRun {
+			return
+		}
 		n := byte(1 + r.Intn(8))
 		in := []byte{byte(r.Intn(256))}
 		for j := 0; j < r.Intn(13); j++ {
@@ -91,6 +97,9 @@ func hpackIntsMalformed(run *Run, ss *shardSet) {
 func hpackHuffmanMalformed(run *Run, ss *shardSet) {
 	r := run.R
 	for i := 0; i < run.N(400, 5000); i++ {
+		if abortRun {
+			return
+		}
 		var in []byte
 		if r.Bool() {
 			in = corruptBytes(r, mhpack.AppendHuffmanString(nil, genString(r, 40)))
